@@ -245,6 +245,11 @@ func Generate(r *rand.Rand, o Opts) *Project {
 		if pk.IsMain && r.Intn(3) == 0 {
 			pk.Files[0].Freeze()
 		}
+		// the entry file of a main package nested below another main's directory never changes: it may
+		// be rewritten only when that very package is selected
+		if pk.IsMain && (strings.HasSuffix(pk.Dir, "/hack/gen") || strings.HasSuffix(pk.Dir, "/tools/dump")) {
+			pk.Files[0].Freeze()
+		}
 		_ = pi
 	}
 	// cross-package calls: file 0 of each package calls one stable function of each import
